@@ -35,7 +35,7 @@ import deep.logging
 from deep.api.tracepoint.eventsnapshot import WATCH_SOURCE_CAPTURE
 from deep.logging import logging
 from deep.api.tracepoint import WatchResult, Variable
-from deep.processor.variable_set_processor import VariableSetProcessor
+from deep.processor.variable_set_processor import VariableSetProcessor, VariableProcessorConfig
 from deep.utils import str2bool
 
 if TYPE_CHECKING:
@@ -66,6 +66,21 @@ class ActionContext(abc.ABC):
         if self.has_triggered():
             self.location_action.record_triggered(self.trigger_context.ts)
 
+    def variable_config(self) -> VariableProcessorConfig:
+        """
+        Get the collection limits of this action's tracepoint.
+
+        They bound everything the action collects: the frame variables, and the values of watches, log fields and
+        captured results alike.
+        """
+        config = VariableProcessorConfig()
+        settings = self.location_action.config if self.location_action is not None else {}
+        config.max_string_length = settings.get('MAX_STRING_LENGTH', config.DEFAULT_MAX_STRING_LENGTH)
+        config.max_collection_size = settings.get('MAX_COLLECTION_SIZE', config.DEFAULT_MAX_COLLECTION_SIZE)
+        config.max_variables = settings.get('MAX_VARIABLES', config.DEFAULT_MAX_VARIABLES)
+        config.max_var_depth = settings.get('MAX_VAR_DEPTH', config.DEFAULT_MAX_VAR_DEPTH)
+        return config
+
     def eval_watch(self, watch: str, source: str) -> Tuple[WatchResult, Dict[str, Variable], str]:
         """
         Evaluate an expression in the current frame.
@@ -74,11 +89,14 @@ class ActionContext(abc.ABC):
         :param watch: The watch expression to evaluate.
         :return: Tuple with WatchResult, collected variables, and the log string for the expression
         """
-        var_processor = VariableSetProcessor({}, self.trigger_context.var_cache)
+        var_processor = VariableSetProcessor({}, self.trigger_context.var_cache, self.variable_config())
 
         try:
             result = self.trigger_context.evaluate_expression(watch)
             variable_id, log_str = var_processor.process_variable(watch, result)
+            if variable_id.vid is None:
+                # the variable budget is used up: say so, rather than handing out a reference to nothing
+                return WatchResult(source, watch, None, "Variable limit reached"), {}, log_str
 
             return WatchResult(source, watch, variable_id), var_processor.var_lookup, log_str
         except BaseException as e:
@@ -93,8 +111,10 @@ class ActionContext(abc.ABC):
         :param variable: the value to process
         :return: Tuple with WatchResult, collected variables, and the log string for the expression
         """
-        var_processor = VariableSetProcessor({}, self.trigger_context.var_cache)
+        var_processor = VariableSetProcessor({}, self.trigger_context.var_cache, self.variable_config())
         variable_id, log_str = var_processor.process_variable(name, variable)
+        if variable_id.vid is None:
+            return WatchResult(WATCH_SOURCE_CAPTURE, name, None, "Variable limit reached"), {}, log_str
 
         return WatchResult(WATCH_SOURCE_CAPTURE, name, variable_id), var_processor.var_lookup, log_str
 
